@@ -572,6 +572,11 @@ class ContainerValue:
             "map_or_list_value": MapOrListValue,
         }
         spec = dict(spec)  # the keys are popped below; leave the caller's mapping alone
+        non_str_keys = [i for i in spec if not isinstance(i, str)]
+        if non_str_keys:
+            raise ValueError(
+                f"Unknown arguments to container item specification: {non_str_keys}"
+            )
         container_type = spec.pop("type", "map_or_list_value")
         try:
             cls = CLS_LOOKUP[container_type]
